@@ -251,3 +251,24 @@ def derives_must(fnode, expr, pred, at, depth=6):
                 return False
         return True
     return derives(fnode, expr, pred, depth, at=at)
+
+
+def source_list(fnode, name, depth=3):
+    """Follow ``X = [f(e) for e in Y]`` (no filter) back to the list the
+    elements originally come from.  Returns (source name, [comprehensions
+    passed through])."""
+    comps = []
+    cur = name
+    while depth > 0:
+        ds = [d for d in local_defs(fnode).get(cur, [])
+              if d.kind != 'mutate']
+        if len(ds) != 1 or not isinstance(ds[0].value, ast.ListComp):
+            break
+        lc = ds[0].value
+        if len(lc.generators) != 1 or lc.generators[0].ifs or \
+                not isinstance(lc.generators[0].iter, ast.Name):
+            break
+        comps.append(lc)
+        cur = lc.generators[0].iter.id
+        depth -= 1
+    return cur, comps
